@@ -562,7 +562,7 @@ func judgeScheme(c *Case, o observation) *failure {
 	if len(acc) == 1 && acc["https"] {
 		return &failure{"scheme/https-not-preferred", fmt.Sprintf("%s: scheme %q, but https is among several offered (transport %q, operation %q)", o, o.Scheme, c.Rt, c.Op)}
 	}
-	return &failure{"scheme/not-offered", fmt.Sprintf("%s: scheme %q is not acceptable for transport %q, operation %q", o, o.Scheme, c.Rt, c.Op)}
+	return &failure{"scheme/not-acceptable", fmt.Sprintf("%s: scheme %q is not acceptable for transport %q, operation %q", o, o.Scheme, c.Rt, c.Op)}
 }
 
 func judge(c *Case, o observation) []failure {
